@@ -140,12 +140,28 @@ impl PieceType for Pawn {
             let dest = BitBoard::from(Pos::new(ep_file, dest_rank));
             let capture_pawn = Pos::new(ep_file, rank);
 
-            // if the opponent's pawn is checking the king (and the only piece checking the king)
-            // or if the there is no check and the opponent's pawn doesn't block a check against our king
-            // then we can capture it via en-passant with any unpinned pawn on the same rank and adjacent file as the
-            // opponent's pawn
-            if check_mask.contains(capture_pawn) && !board.pinned.contains(capture_pawn) {
-                for src in BitBoard::from(rank) & files & pieces & !board.pinned {
+            // en passant removes two pawns from the capture rank at once, which the cached
+            // pin information cannot express, so test the position after the capture directly:
+            // no remaining enemy piece may attack our king once both pawns have left
+            // and the capturing pawn stands on the target square
+            let opp = board.raw[!board.turn] - capture_pawn;
+            let rooks = (board.raw[Piece::Rook] | board.raw[Piece::Queen]) & opp;
+            let bishops = (board.raw[Piece::Bishop] | board.raw[Piece::Queen]) & opp;
+            let knights = chess_lookup::knight_moves(king_sq) & board.raw[Piece::Knight] & opp;
+            let pawns = chess_lookup::pawn_attacks_moves(king_sq, board.turn)
+                & board.raw[Piece::Pawn]
+                & opp;
+
+            if (dest & mask).any() && (knights | pawns).none() {
+                for src in BitBoard::from(rank) & files & pieces {
+                    let occupied = (combined - src - capture_pawn) | dest;
+                    let attacked = (chess_lookup::rook_moves(king_sq, occupied) & rooks).any()
+                        || (chess_lookup::bishop_moves(king_sq, occupied) & bishops).any();
+
+                    if attacked {
+                        continue;
+                    }
+
                     unsafe {
                         movelist.push_unchecked(LegalMovesAt {
                             src,
